@@ -21,14 +21,15 @@ def generic_run(tier, seed, drv, *, monitors_on, corr, nested=True, flat=True, c
             scn = tweak(scn, rng)
         SC.stats_into(res, scn)
         for j, b in enumerate(buses):
-            run = run_scenario(scn, bus=b, seed=rng.randrange(1 << 30))
+            sd = rng.randrange(1 << 30)
+            run = run_scenario(scn, bus=b, seed=sd)
             nupd = len(run["trace"].of("update"))
             res.case(SC.scn_key(scn) + f"{b}{j}", nontrivial=nupd > len(S.devices(scn)),
                      sample={"scenario": scn, "bus": b, "updates": nupd} if i < 2 and j == 0 else None)
             res.count("bus=" + b)
             res.count("skips", sum(1 for e in run["trace"].of("t-dispatch") if e["dk"] == "skip"))
             res.count("inputs", sum(1 for e in run["trace"].of("t-dispatch") if e["dk"] == "input"))
-            SC.check_run(scn, run, drv, res, monitors_on=monitors_on, corr=corr, case_extra={"bus": b}, with_real=with_real)
+            SC.check_run(scn, run, drv, res, monitors_on=monitors_on, corr=corr, case_extra={"bus": b, "held_seed": sd}, with_real=with_real)
             if extra:
                 extra(scn, run, res, rng)
     res.rule = rule or ("corpus + generated flat and nested simulations (DAG slices grouped into systems, depth <= 3, shared port names, fan-in/out, "
@@ -41,6 +42,6 @@ def generic_run(tier, seed, drv, *, monitors_on, corr, nested=True, flat=True, c
 def generic_replay(payload, drv, *, monitors_on, corr, with_real=False):
     c = payload["case"]
     res = Result()
-    run = run_scenario(c["scenario"], bus=c.get("bus", "sync"), seed=payload.get("seed", 0))
+    run = run_scenario(c["scenario"], bus=c.get("bus", "sync"), seed=c.get("held_seed", payload.get("seed", 0)))
     SC.check_run(c["scenario"], run, drv, res, monitors_on=monitors_on, corr=corr, with_real=with_real)
     return {"violations": [v["record"] for v in res.violations], "divergences": res.divergences[:3]}
